@@ -20,6 +20,8 @@ package main
 
 import (
 	"bytes"
+	"os"
+	"time"
 	"encoding/binary"
 	"fmt"
 	"sort"
@@ -36,6 +38,7 @@ import (
 	"github.com/nspcc-dev/neo-go/pkg/smartcontract"
 	"github.com/nspcc-dev/neo-go/pkg/util"
 	"go.uber.org/zap"
+	"go.uber.org/zap/zapcore"
 
 	"verif/harness/internal/chainx"
 	"verif/harness/internal/hx"
@@ -122,7 +125,7 @@ func buildSource(r *prng.R, tb *chainx.TB, interval, mtb, height int, plain bool
 			for i := 0; i < n; i++ {
 				u := users[r.Intn(len(users))]
 				kind := r.Intn(9)
-				if plain && kind >= 2 && kind <= 5 {
+				if plain && kind >= 2 && kind <= 5 && kind != 7 {
 					kind = 8 // no deliberately equal values / sub-tries
 				}
 				switch kind {
@@ -155,6 +158,11 @@ func buildSource(r *prng.R, tb *chainx.TB, interval, mtb, height int, plain bool
 				case 6:
 					txs = append(txs, s.tx(u, callScript(s.kvH, "del", []byte{byte(0x10 * r.Range(1, 3)), byte(r.Intn(3)), byte(r.Intn(3))})))
 					o.Count("src:del")
+				case 7: // a key that is a proper prefix of other keys: a branch with a value child
+					base := []byte{0x3c, byte(r.Intn(2))}
+					txs = append(txs, s.tx(u, callScript(s.kvH, "put", base, []byte{byte(r.Range(1, 2))})))
+					txs = append(txs, s.tx(u, callScript(s.kvH, "put", append(append([]byte{}, base...), byte(r.Intn(2))), []byte{byte(r.Range(1, 2))})))
+					o.Count("src:prefix-key")
 				default:
 					txs = append(txs, s.tx(u, callScript(s.kvH, "put", r.Bytes(r.Range(1, 4)), r.Bytes(r.Range(1, 5)))))
 					o.Count("src:put-random")
@@ -324,8 +332,10 @@ func runCase(k int, f *hx.Flags, o *hx.Out) {
 	}
 	defer c.src.node.Stop()
 	src := c.src.bc()
-	syncNode, err := chainx.StartNode(protoCfg(c.src.net, interval, mtb, true), chainx.NewBackend(chainx.Memory))
-	if err != nil {
+	// log.Fatal inside the node (a failed state jump) must become an observation, not os.Exit
+	syncNode := &chainx.Node{Cfg: protoCfg(c.src.net, interval, mtb, true), Backend: chainx.NewBackend(chainx.Memory),
+		Log: zap.New(zapcore.NewNopCore(), zap.WithFatalHook(zapcore.WriteThenPanic))}
+	if err := syncNode.Restart(); err != nil {
 		panic(err)
 	}
 	c.sync = syncNode
@@ -462,6 +472,10 @@ func runCase(k int, f *hx.Flags, o *hx.Out) {
 			from = hh - uint32(c.r.Intn(int(min(hh, 3))))
 		}
 		to := min(top, from+uint32(c.r.Range(0, 6)))
+		stopAtP := false
+		if from <= c.P && to >= c.P && c.r.Chance(1, 2) {
+			to, stopAtP = c.P, true // header height == sync point exactly: headers are NOT yet in sync
+		}
 		gap := c.r.Chance(1, 12) && from+2 < top
 		if gap {
 			from += 2
@@ -487,7 +501,10 @@ func runCase(k int, f *hx.Flags, o *hx.Out) {
 		if gap {
 			o.Count("headers:gap")
 		}
-		if c.mod.NeedHeaders() && c.r.Chance(1, 8) {
+		if stopAtP && !gap {
+			o.Count("headers:stopped-at-P")
+		}
+		if c.mod.NeedHeaders() && (c.r.Chance(1, 8) || (stopAtP && !gap && c.r.Chance(2, 3))) {
 			if !reinit("headers") {
 				return
 			}
@@ -663,7 +680,7 @@ func runCase(k int, f *hx.Flags, o *hx.Out) {
 	}
 	o.Add("state:items", len(want))
 	// lockstep after the sync point
-	if c.r.Chance(1, 3) {
+	if c.r.Chance(1, 5) {
 		if err := c.restartNode(); err != nil {
 			c.fail("restart-after-jump", "node restart after the completed state jump failed: %v (genesis hash %s, chain height %d)", err, src.GetHeaderHash(0).StringLE(), top)
 			return
@@ -701,13 +718,19 @@ func main() {
 	o := hx.NewOut(f.Out)
 	defer o.Close()
 	_ = zap.NewNop
-	n := f.N(30, 1500)
+	n := f.N(100, 3000)
 	for k := 0; k < n; k++ {
 		if !f.Want(k) {
 			continue
 		}
 		o.Case(k)
+		wd := time.AfterFunc(120*time.Second, func() {
+			o.Fail("hang", k, "case did not finish within 120 s")
+			o.Close()
+			os.Exit(0)
+		})
 		func() {
+			defer wd.Stop()
 			defer func() {
 				if r := recover(); r != nil {
 					o.Line("harness-panic", "harness-panic")
